@@ -134,6 +134,12 @@ CHECKS.update({
         "A target module with classes, a private base, functions, an enum, forward-referencing list attributes and a re-exported class is analysed together with an unrelated module that in half of the cases reuses the target's class, function, enum, private-base and module names; seven variants of the unrelated part and one permutation of the target's declarations must leave the target's stub files unchanged (up to the order of its declarations).",
         "§5 C18",
     ),
+    "C14": (
+        "E4 relation engine",
+        "property-based testing over the full (hint, docstring type) matrix per slot x 3 docstring styles, each case run under 2 preferences x 2 warning settings; oracle = statement's table per slot, byte equality of WARN/IGNORE outputs, multiset of logged discrepancy warnings",
+        "Every parameter and result of generated functions, methods and constructors draws one of the five (hint, docstring type) combinations; the stub type of each slot under CODE and DOCSTRING, the byte-identity of all files between WARN and IGNORE, and the multiset of 'Different type hint and docstring types' records on the root logger (exactly one per differing slot under WARN, none under IGNORE) are checked.",
+        "§5 C14",
+    ),
 })
 
 NOT_YET = "check not built yet in this session (work in progress, see DESIGN.md §9)"
